@@ -12,8 +12,18 @@ use std::io::Cursor;
 
 const FORMATS: [&str; 4] = ["xlsx", "xlsb", "xls", "ods"];
 
-fn model(pattern: u32, off: u32) -> Grid {
+fn last_row(fmt: &str) -> u32 { if fmt == "xls" { 65_535 } else { 1_048_575 } }
+
+/// patterns 0..32: every subset of rows 0..4; pattern 32: the last row of the format's grid and the one above it
+fn model(fmt: &str, pattern: u32, off: u32) -> Grid {
     let mut g = Grid::new();
+    if pattern == 32 {
+        let l = last_row(fmt);
+        g.insert((l - 1, off), Data::Float(7.0));
+        g.insert((l, off), Data::Float(8.0));
+        g.insert((l, off + 1), Data::String("last".into()));
+        return g;
+    }
     for r in 0..5u32 {
         if pattern & (1 << r) != 0 {
             g.insert((r, off), Data::Float(r as f64 + 1.0));
@@ -49,7 +59,9 @@ fn build(fmt: &str, g: &Grid, variant: u8) -> Vec<u8> {
             let last = g.keys().map(|k| k.0).max();
             let mut rows = vec![];
             if let Some(last) = last {
-                for r in 0..=last {
+                let first = g.keys().map(|k| k.0).min().unwrap_or(0);
+                if first > 6 { rows.push(ods::ORow { cells: vec![(ods::OCell::empty(), 1)], repeat: first }); }
+                for r in (if first > 6 { first } else { 0 })..=last {
                     let maxc = g.keys().filter(|k| k.0 == r).map(|k| k.1).max();
                     let mut cells = vec![];
                     if let Some(mc) = maxc {
@@ -126,14 +138,20 @@ pub fn check(rep: &Report) {
     if t { for a in &opts { for b in &opts { for c in &opts { hists.push(vec![*a, *b, *c]); } } } }
     else { for a in small { for b in small { for c in small { hists.push(vec![a, b, c]); } } } }
     let mut jobs = vec![];
-    for f in FORMATS { for p in 0..32u32 { for off in [0u32, 2] { for variant in [0u8, 1, 2] { if (variant == 1 && (f == "xls" || f == "ods")) || (variant == 2 && f != "xlsx") { continue; } jobs.push((f, p, off, variant)); } } } }
+    for f in FORMATS { for p in 0..33u32 { for off in [0u32, 2] { for variant in [0u8, 1, 2] { if (variant == 1 && (f == "xls" || f == "ods")) || (variant == 2 && f != "xlsx") { continue; } jobs.push((f, p, off, variant)); } } } }
     let nh = hists.len() as u64;
     jobs.par_iter().for_each(|(fmt, p, off, variant)| {
         let stale = &(*variant == 1);
-        let g = model(*p, *off);
+        let g = model(fmt, *p, *off);
         let bytes = build(fmt, &g, *variant);
+        // the far pattern is read under options around the last row only (a range starting near row 0 would hold a million rows)
+        let l = last_row(fmt);
+        let far_opts = [Opt::First, Opt::Row(l - 1), Opt::Row(l), Opt::Row(l + 1), Opt::Row(u32::MAX)];
+        let mut far_hists: Vec<Vec<Opt>> = far_opts.iter().map(|a| vec![*a]).collect();
+        for a in far_opts { for b in far_opts { far_hists.push(vec![a, b]); } }
+        let hists = if *p == 32 { &far_hists } else { &hists };
         let mut local = vec![];
-        for h in &hists {
+        for h in hists.iter() {
             crate::engine::crumb::set_case(&format!("C08 format={fmt} rows={p:05b} col_offset={off} variant={variant} history={h:?}"));
             rep.eval(1);
             let res = guarded(|| match *fmt { "xlsx" => run_history::<Xlsx<_>>(&bytes, h), "xlsb" => run_history::<Xlsb<_>>(&bytes, h), "xls" => run_history::<Xls<_>>(&bytes, h), _ => run_history::<Ods<_>>(&bytes, h) });
@@ -172,7 +190,7 @@ pub fn replay(path: &str) -> i32 {
     let Ok(s) = std::fs::read_to_string(path) else { return 2 };
     let v: serde_json::Value = serde_json::from_str(&s).unwrap();
     let fmt = v["format"].as_str().unwrap().to_string();
-    let g = model(v["row_pattern"].as_u64().unwrap() as u32, v["col_offset"].as_u64().unwrap() as u32);
+    let g = model(&fmt, v["row_pattern"].as_u64().unwrap() as u32, v["col_offset"].as_u64().unwrap() as u32);
     let h: Vec<Opt> = v["history"].as_array().unwrap().iter().map(|o| { let s = o.as_str().unwrap(); if s.starts_with("Row(") { Opt::Row(s[4..s.len() - 1].parse().unwrap()) } else { Opt::First } }).collect();
     let bytes = build(&fmt, &g, v["variant"].as_u64().unwrap_or(0) as u8);
     let run = || guarded(|| match fmt.as_str() { "xlsx" => run_history::<Xlsx<_>>(&bytes, &h), "xlsb" => run_history::<Xlsb<_>>(&bytes, &h), "xls" => run_history::<Xls<_>>(&bytes, &h), _ => run_history::<Ods<_>>(&bytes, &h) }.map(|v| v.iter().map(crate::model::sheet::range_digest).collect::<Vec<_>>()));
